@@ -51,6 +51,27 @@ var driverMethods = []string{cdxSer, spdxSer, "beta.(*SPDX3).Serialize", "serial
 
 func serializerState(c *Ctx) {
 	o := newOrigins(c.P)
+	// determinism across calls also needs the input document to stay untouched
+	const RW = "no-operand-write"
+	c.rule(RW, "Serialize writes no memory reachable from the document it is given (origin dataflow, see C11): otherwise a second serialization of the same document sees a different value")
+	for _, n := range []string{cdxSer, spdxSer, "beta.(*SPDX3).Serialize"} {
+		fn := c.P.Func(n)
+		if fn == nil || o.sums[fn] == nil || len(fn.Params) < 2 {
+			c.undecided(RW, "anchor:"+n, "-", "serializer not found")
+			continue
+		}
+		var w []mutation
+		for _, m := range o.sums[fn].muts {
+			if m.param == 1 {
+				w = append(w, m)
+			}
+		}
+		if len(w) == 0 {
+			c.ok(RW, n+"#bom", c.P.Pos(fn.Pos()), "the document is not written")
+		} else {
+			c.bad(RW, n+"#bom", c.P.Pos(w[0].pos), describeMuts(c, n, "bom", w))
+		}
+	}
 	driverStateRule(c, "driver-keeps-no-state", []string{cdxSer, spdxSer, "beta.(*SPDX3).Serialize", "serializers.(*CDX).Render", "serializers.(*SPDX23).Render", "beta.(*SPDX3).Render"}, o)
 	nondetRule(c, serializerEntries, map[string]string{
 		"serializers.(*SPDX23).Serialize→time.Now@Created": "creation timestamp of the SPDX document (excluded by the statement)",
